@@ -202,6 +202,8 @@ type gen struct {
 	r       *cv.Rand
 	// number of retained-value failures already copied into the statistics (capped)
 	retainFails int
+	// replay mode: one case per replay file (the marshal cases are not added beside their print case)
+	replaying bool
 }
 
 // add writes the case and keeps the first case of every constructor/class as a sample for the evidence
@@ -615,6 +617,9 @@ func (g *gen) addAddrPrint(a []byte) {
 	g.distinct("ap|"+string(a), true)
 	g.add(fmt.Sprintf("CAddrPrint %s %s %s %s", cv.CoqBytes(a), cv.CoqBytes([]byte(s0)), cv.CoqBytes([]byte(sc)), cv.CoqBytes([]byte(sp))),
 		desc{Kind: "addrprint", Input: hex.EncodeToString(a), InputHex: hex.EncodeToString(a), Impl: s0 + " " + sc + " " + sp})
+	if !g.replaying {
+		g.addAddrMarshal(a) // wave 6: MarshalJSON of the three address types as its own Coq-side case
+	}
 }
 
 func runBytes(k *keeper, in []byte) (r bytesRes) {
@@ -694,6 +699,9 @@ func (g *gen) addBytesPrint(h []byte) {
 	g.distinct("bp|"+string(h), len(h) > 0)
 	g.add(fmt.Sprintf("CBytesPrint %s %s %s", cv.CoqBytes(h), cv.CoqBytes([]byte(sp)), cv.CoqBytes([]byte(s0))),
 		desc{Kind: "bytesprint", Input: cv.Compress(h).Describe(), InputHex: hex.EncodeToString(h), Impl: "len " + fmt.Sprint(len(sp))})
+	if !g.replaying {
+		g.addBytesMarshal(h) // wave 6: MarshalJSON of the two byte-string types as its own Coq-side case
+	}
 }
 
 func lenBucket(n int) string {
@@ -889,6 +897,7 @@ func main() {
 		}
 		json.Unmarshal(raw, &rp)
 		g.w = cv.NewWriter(*out, "C19", header, "case", "mismatches", 1)
+		g.replaying = true
 		in, _ := hex.DecodeString(rp.Case.InputHex)
 		exp, _ := hex.DecodeString(rp.Case.ExpHex)
 		switch rp.Case.Kind {
@@ -910,6 +919,10 @@ func main() {
 			fmt.Printf("implementation on %s: %s\n", printable(in), runBytes(K, in))
 		case "bytesprint":
 			g.addBytesPrint(in)
+		case "addrmarshal":
+			g.addAddrMarshal(in)
+		case "bytesmarshal":
+			g.addBytesMarshal(in)
 		case "lex":
 			g.addLex(in)
 		case "retain":
